@@ -5,10 +5,15 @@ Parties per case:
   * the real `menpo.shape.LabelledPointUndirectedGraph` / the real functions of `menpo.landmark`,
   * the property oracle `expect()` / `labeller_oracle()`: the property text as predicates over the real objects
     (plain Python lists and sets, independent of the Lean model),
-  * the Lean model (Core/C15.lean) executed by the driver on the observed state before each operation, and on the
-    labeller tables regenerated from the live functions (Generated/C15Labellers.lean).
-Hash-seed determinism is observed where it can be: a fixed battery is re-run in separate interpreter processes
-with different PYTHONHASHSEED and the outputs are diffed.
+  * the Lean model (Core/C15.lean, Core/C15Entry.lean) executed by the driver on the observed state before each
+    operation, on the labeller tables regenerated from the live functions (Generated/C15Labellers.lean) for every
+    labeller call (`LabFunc.call`, per input kind) and on whole `labeller()` histories of a landmark manager
+    (`relabelMany`); the constructors (`construct`, `initFromIndices`, `initWithAllLabel`) on malformed recipes.
+Regenerated on every run with `decide` obligations (GenProps/C15.lean): the labeller tables, the resolution table (what
+each labeller does per input kind / `return_mapping`, Generated/C15Resolution.lean) and two ast scans of the anchored
+sources (harness/scan_c15.py, Generated/C15Scan.lean).
+Hash-seed determinism is observed where it can be: a fixed battery (operations, every labeller, `labeller()`) is re-run
+in separate interpreter processes with different PYTHONHASHSEED and the outputs are diffed.
 """
 import json
 import os
@@ -20,57 +25,89 @@ from . import extract_c15
 
 PROP = "C15"
 INFO = dict(
-    technique="Lean 4 proof (selection exactness by the masking index lemma, coverage invariant by induction over "
-              "operation sequences, labellers as `gather` with a well-formedness obligation) + labeller tables "
-              "regenerated from the live functions with one `decide +kernel` obligation each + model/implementation "
-              "correspondence, an independent property oracle, and a battery re-run in separate interpreter "
-              "processes with different PYTHONHASHSEED",
-    level_text="Theorems over an executable model of LabelledPointUndirectedGraph (with_labels, without_labels, "
-               "get_label, add_label, remove_label, the constructor's coverage check, from_mask with its all-true "
-               "shortcut): a selection returns exactly the points under the requested labels in their original order, "
-               "exactly the edges among them renumbered, each requested label with its mask restricted, labels in "
-               "request order (with_labels) / original order (without_labels, remove_label, add_label); selections "
-               "raise exactly for unknown labels or an empty selection; every succeeding operation sequence keeps "
-               "every point labelled.  `without_labels` as coded (label order = set iteration order) and `add_label` "
-               "as coded (no coverage check when a name is re-used) are refuted by kernel-checked witnesses and the "
-               "repaired behaviour is proved.  Every labeller whose regenerated table satisfies `labellerWF` "
-               "(33 kernel-decided obligations, re-checked against the live functions on every run) returns distinct "
-               "input points, labels every output point, commutes with every map of the points, and rejects every "
-               "other input size.  Tied to /repo by the regenerated tables and by running random operation sequences "
-               "and every labeller (arrays / point clouds / labelled graphs, right and wrong sizes) through the real "
-               "code and the Lean driver; an oracle independent of the model decides the property on the real code, "
-               "across interpreter processes with different hash seeds for the run-to-run clause.",
-    level_note="Trusted: Lean kernel; axioms propext/Classical.choice/Quot.sound; harness/extract_c15.py (probing), the "
-               "Python harness and oracle, the driver's parser.  Modelled, not verified: numpy boolean / integer "
-               "indexing, scipy sparse row/column selection (`adjacency[keep,:][:,keep]`), OrderedDict item assignment "
-               "and pop (each exercised by the correspondence).  CPython's set iteration order is a parameter of the "
-               "coded `without_labels` model about which only 'is a permutation' is assumed.  That each labeller *is* "
-               "`gather` with its table for every input is tested (random clouds, three input kinds), not proved: "
-               "the functions are Python code, the table is what they did on the probe cloud.",
-    rule="a case = one operation applied to one labelled graph (1..9 points, 1..6 overlapping labels incl. empty masks, "
-         "any edge set incl. self loops) reached by a random operation sequence, or one labeller applied to one input "
-         "(kind x dimension x size); distinct = distinct (state, operation) / (labeller, kind, size, points); "
-         "non-trivial = graph with >= 2 points and >= 2 labels, or labeller input of the expected size",
-    partial=["receiver / input untouched is a value-model fact in Lean (operations return new values); on the real "
-             "objects it is checked by digests of the receiver before and after every call",
-             "that a labeller equals `gather` with its regenerated table on *every* input is tested by the "
-             "correspondence (random clouds of both dimensions, arrays / point clouds / labelled graphs), not proved",
-             "run-to-run identity is a theorem for the repaired operations (they are functions); for the real "
-             "interpreter it is observed over 3 (quick) / 8 (thorough) hash seeds",
-             "with_labels returns the labels in the order of the request (`OrderedDict(zip(labels, ...))`); the "
-             "property's 'original order' is proved and checked for requests that list labels in their original "
-             "order and for without_labels / remove_label / add_label; for a permuted request the request order is "
-             "required",
+    technique="Lean 4 proof (selection exactness by the masking index lemma, selection characterised exactly under the "
+              "code's guards incl. every error branch, coverage invariant by induction over operation sequences, "
+              "name-opacity: every operation sequence commutes with every injective renaming of the labels, labellers as "
+              "`gather` with a well-formedness obligation, `labeller_func`'s wrapper and `labeller()` on a landmark "
+              "manager with an invariant over histories of calls) + tables regenerated from the live code on every run "
+              "with `decide +kernel` obligations (33 labeller tables, 33 resolution rows: what each labeller does per "
+              "input kind and per `return_mapping`, two ast scans: set-iteration sites, what each labelling function does "
+              "with its argument) + model/implementation correspondence, an independent property oracle, and a battery "
+              "re-run in separate interpreter processes with different PYTHONHASHSEED",
+    level_text="Theorems over an executable model of LabelledPointUndirectedGraph (with_labels, without_labels — both with "
+               "the str-or-list argument —, get_label, add_label, remove_label, the constructor's coverage check, "
+               "from_mask with its all-true shortcut): a selection succeeds iff every requested label exists, the request "
+               "is not empty and a point lies under a requested label, and then returns exactly the points under the "
+               "requested labels in their original order, exactly the edges among them renumbered, each requested label "
+               "with its mask restricted, labels in request order (with_labels; permuted / duplicated requests return the "
+               "same points, edges and masks) / original order (without_labels, remove_label, add_label); every way a "
+               "selection raises is characterised with the exception kind the code produces (unknown label, empty "
+               "request = without_labels of every label, no point selected); unknown names in an exclusion list are "
+               "ignored; the constructors (plain, from an index mapping, with the all label) succeed iff every mask has "
+               "the length of the points and every point is covered — a group with an unlabelled point cannot be built; "
+               "every succeeding operation sequence keeps every point labelled; every operation sequence "
+               "commutes with every injective renaming of the labels (no dependence on hashes or name comparison).  "
+               "`without_labels` as coded before the repair (label order = set iteration order) and `add_label` as coded "
+               "before the repair are refuted by kernel-checked witnesses and the repaired behaviour is proved.  Every "
+               "labeller whose regenerated table satisfies `labellerWF` (33 kernel-decided obligations, re-checked "
+               "against the live functions on every run) returns distinct input points, labels every output point, "
+               "commutes with every map of the points, rejects every other input size, and its result reproduces the "
+               "table on every input (label masks, points under each label, connectivity through the index list); the "
+               "wrapper treats arrays, point clouds, labelled graphs and manager groups alike; `labeller()` leaves the "
+               "source group and every other group untouched, writes exactly the key `group_label`, raises exactly for a "
+               "missing group / an ambiguous None / a wrong size, over every history of calls.  Tied to /repo by the "
+               "regenerated tables and scans and by running random operation sequences, every labeller (arrays of several "
+               "dtypes and layouts / point clouds and subclasses / labelled graphs, right and wrong sizes) and random "
+               "`labeller()` histories through the real code and the Lean driver; an oracle independent of the model "
+               "decides the property on the real code, across interpreter processes with different hash seeds for the "
+               "run-to-run clause.",
+    level_note="Trusted: Lean kernel; axioms propext/Classical.choice/Quot.sound; harness/extract_c15.py (probing), "
+               "harness/scan_c15.py (ast classification of uses), the Python harness and oracle, the driver's parser.  "
+               "Modelled, not verified: numpy boolean / integer indexing, scipy sparse row/column selection "
+               "(`adjacency[keep,:][:,keep]`), OrderedDict item assignment and pop, `Copyable.copy` of a group stored by "
+               "`LandmarkManager.__setitem__` (each exercised by the correspondence; aliasing by identity / digest / "
+               "shares_memory checks on the real objects).  CPython's set iteration order is a parameter of the coded "
+               "`without_labels` model about which only 'is a permutation' is assumed.  That each labeller *is* `gather` "
+               "with its table for every input is not a theorem about the Python functions: it is tested (random clouds, "
+               "all input kinds) and backed by the regenerated scan obligation that no labelling function can look at a "
+               "coordinate.",
+    rule="a case = one operation applied to one labelled graph (1..9 points, 1..6 overlapping labels incl. empty and "
+         "identical masks, masks as bool / int / uint8 arrays or lists, any edge set incl. self loops and none, label names "
+         "incl. the empty string, unicode and names that are substrings of one another) reached by a random operation "
+         "sequence, or one labeller applied to one input (kind x dtype/layout x dimension x size), or one `labeller()` call "
+         "in a history of calls on one landmarkable; distinct = distinct (state, operation) / (labeller, kind, size, "
+         "points) / (groups, group argument, labeller chain, points); non-trivial = graph with >= 2 points and >= 2 "
+         "labels, or labeller input of the expected size, or a `labeller()` history",
+    partial=["receiver / input untouched is a value-model fact in Lean (operations return new values; for `labeller()` the "
+             "theorems `relabel_source_untouched` / `relabelMany_invariant` say which keys of the manager keep their "
+             "value); on the real objects it is checked by digests and object identity of the receiver / of every group "
+             "before and after every call, and by `shares_memory` between the stored group and its source",
+             "that a labeller equals `gather` with its regenerated table on *every* input is proved for the model "
+             "(`live_labellers_masks`) and, for the Python functions, tested by the correspondence (random clouds of both "
+             "dimensions, several dtypes and layouts, arrays / point clouds / subclasses / labelled graphs / manager "
+             "groups) and backed by the regenerated obligation `labScan_ok` (ast scan: every labelling function uses its "
+             "argument only through validate_input, `.points[<constant index>]`, `.points` handed whole to a constructor, "
+             "`.n_points`, or delegation to another scanned function, and validates exactly the size of its table) — not "
+             "proved about the Python code",
+             "run-to-run identity is a theorem for the model (the operations are functions, and `run_rename`: their "
+             "results do not depend on hashes or on how names compare); for the real interpreter it is observed over 3 "
+             "(quick) / 8 (thorough) hash seeds and backed by the regenerated obligation `orderSites_ok` (ast scan: the "
+             "only set whose iteration order the anchored code observes is inside a `raise`)",
              "the two bounding-box labellers are outside the re-indexing clause by the property text: only label "
              "coverage and input purity are checked for them",
-             "DESIGN 6/C15 G also names a `labeller_func` / `validate_input` resolution table; not built — the size "
-             "check of every labeller is exercised behaviourally (probe of sizes 1..200 + wrong-size battery)",
-             "connectivity of a labeller's output is not a clause of the property text: it is tabulated, proved in "
-             "range for the 27 labellers returning a labelled graph (`edges_*` obligations) and reported as a side "
-             "finding otherwise (face_ibug_68_to_face_ibug_49_trimesh, see notes/fixes/C15-3-*.diff)"],
+             "connectivity of a labeller's output is not a clause of the property text: it is tabulated, proved in range "
+             "for the 27 labellers returning a labelled graph (`edges_*` obligations) and reported as a side finding "
+             "otherwise (face_ibug_68_to_face_ibug_49_trimesh, see notes/fixes/C15-3-*.diff); likewise that the two eye "
+             "trimesh labellers return a mesh over the caller's own buffer (notes/fixes/C15-4-*.diff) is reported, not a "
+             "violation: the call itself leaves the input untouched"],
     assumptions=["label names are distinct strings; point coordinates of a generated graph are pairwise distinct "
                  "(used only to identify output points with input points)",
-                 "without_labels is called with labels of the group (the property quantifies over subsets of labels)"],
+                 "reading of 'in their original order' for with_labels: a request that lists labels out of their "
+                 "original order (or repeats one) gets them back in the order of the request, first occurrences "
+                 "(`OrderedDict(zip(labels, …))`); points, edges and masks are the same as for the in-order request "
+                 "(`select_same_set`, `select_dedup`)",
+                 "masks that are not boolean ndarrays (int / uint8 arrays, lists) are outside the documented contract of "
+                 "the constructor: for them an operation must return the right result or raise, never a wrong result"],
     design_ref="DESIGN.md section 6, C15; section 7 #13, #14; Appendix 13 item 4")
 IMPORTS = ["MenpoModel.Props.C15"]
 THEOREMS = [
@@ -90,11 +127,33 @@ THEOREMS = [
     "MenpoModel.C15.run_invariant", "MenpoModel.C15.runCoded_breaks_invariant",
     "MenpoModel.C15.gather_map", "MenpoModel.C15.labeller_size", "MenpoModel.C15.labeller_commutes",
     "MenpoModel.C15.labeller_reindexes", "MenpoModel.C15.labeller_all_labelled", "MenpoModel.C15.labeller_output_wf",
+    # selection under exactly the code's guards, permuted / duplicated requests, refusals, the str form
+    "MenpoModel.C15.select_iff", "MenpoModel.C15.select_error_iff", "MenpoModel.C15.selMask_any_iff",
+    "MenpoModel.C15.select_nonempty", "MenpoModel.C15.select_same_set", "MenpoModel.C15.select_dedup",
+    "MenpoModel.C15.withoutLabels_refusals", "MenpoModel.C15.withoutLabels_unknown_ignored",
+    "MenpoModel.C15.withoutLabels_excl_set", "MenpoModel.C15.labelsArg_str",
+    # the constructors: no group with an unlabelled point can be built
+    "MenpoModel.C15.restrict_lengths", "MenpoModel.C15.construct_iff", "MenpoModel.C15.construct_covered",
+    "MenpoModel.C15.initWithAllLabel_ok", "MenpoModel.C15.initFromIndices_spec",
+    # determinism: label names are opaque
+    "MenpoModel.C15.select_rename", "MenpoModel.C15.withoutLabels_rename", "MenpoModel.C15.addLabel_rename",
+    "MenpoModel.C15.removeLabel_rename", "MenpoModel.C15.getLabel_rename", "MenpoModel.C15.step_rename",
+    "MenpoModel.C15.run_rename", "MenpoModel.C15.run_order_name_independent",
+    "MenpoModel.C15.withoutLabelsCoded_name_dependent",
+    # the labelled result reproduces the table on every input
+    "MenpoModel.C15.labeller_masks", "MenpoModel.C15.labeller_label_points", "MenpoModel.C15.labeller_edges",
+    "MenpoModel.C15.labeller_select_reindexes", "MenpoModel.C15.maskFilter_indexMask_sorted",
+    "MenpoModel.C15.labeller_get_label_gather",
+    # labeller_func's wrapper and labeller() on a landmark manager
+    "MenpoModel.C15.call_kind_independent", "MenpoModel.C15.call_spec", "MenpoModel.C15.relabel_spec",
+    "MenpoModel.C15.relabel_source_untouched", "MenpoModel.C15.relabel_same_key", "MenpoModel.C15.relabel_error_iff",
+    "MenpoModel.C15.relabel_wf", "MenpoModel.C15.relabelMany_invariant",
 ]
 
 NAMES = ["jaw", "left_eye", "right_eye", "nose", "mouth", "left_eyebrow", "right_eyebrow", "chin", "all", "upper",
          "lower", "pupil", "iris", "thumb", "index", "a", "b", "c", "tri", "left _eyebrow", "right_upper arm",
-         "λ", "outline", "bisector", "pelvis", "head", "torso"]
+         "λ", "outline", "bisector", "pelvis", "head", "torso", "", "eye", "LEFT_EYE", "ε λ", "nose ", "0", "左眼",
+         "leg", "legs", "arm", "forearm"]
 
 
 def np_():
@@ -111,7 +170,11 @@ def build(rc):
     from menpo.shape import LabelledPointUndirectedGraph
     pts = np.array(rc["points"], dtype=float)
     edges = np.array(rc["edges"], dtype=int).reshape(-1, 2)
-    masks = OrderedDict((l, np.array(b, dtype=bool)) for l, b in rc["labels"])
+    mk = rc.get("mask_kind", "bool")
+    if mk == "list":
+        masks = OrderedDict((l, [bool(x) for x in b]) for l, b in rc["labels"])
+    else:
+        masks = OrderedDict((l, np.array(b, dtype={"bool": bool, "int": int, "uint8": np.uint8}[mk])) for l, b in rc["labels"])
     return LabelledPointUndirectedGraph.init_from_edges(pts, edges, masks)
 
 
@@ -132,16 +195,7 @@ def observe(obj):
 
 
 def digest(obj):
-    np = np_()
-    d = [np.asarray(obj.points).tobytes(), np.asarray(obj.points).shape]
-    if hasattr(obj, "adjacency_matrix"):
-        a = obj.adjacency_matrix
-        d += [a.toarray().tobytes() if hasattr(a, "toarray") else np.asarray(a).tobytes()]
-    if hasattr(obj, "trilist"):
-        d += [np.asarray(obj.trilist).tobytes()]
-    if hasattr(obj, "_labels_to_masks"):
-        d += [(str(l), np.asarray(m).tobytes()) for l, m in obj._labels_to_masks.items()]
-    return repr(d)
+    return extract_c15.digest(obj)
 
 
 def err_kind(e):
@@ -190,9 +244,11 @@ def snippet(rc, op):
     return ("import numpy as np; from collections import OrderedDict\n"
             "from menpo.shape import LabelledPointUndirectedGraph as L\n"
             "g = L.init_from_edges(np.array(%r, dtype=float), np.array(%r, dtype=int).reshape(-1, 2), "
-            "OrderedDict((l, np.array(b, dtype=bool)) for l, b in %r))\n"
+            "OrderedDict((l, %s) for l, b in %r))\n"
             "r = %s\nprint(getattr(r, 'labels', None), r.points.tolist(), getattr(r, '_labels_to_masks', None))"
-            % (rc["points"], rc["edges"], rc["labels"], call))
+            % (rc["points"], rc["edges"],
+               {"bool": "np.array(b, dtype=bool)", "int": "np.array(b, dtype=int)", "uint8": "np.array(b, dtype=np.uint8)",
+                "list": "[bool(x) for x in b]"}[rc.get("mask_kind", "bool")], rc["labels"], call))
 
 
 # ------------------------------------------------------------------------------------- the property oracle
@@ -300,6 +356,11 @@ def judge(ctx, state, op, status, result, digest_before, digest_after):
         return ok, ("err", result)
     exp = want[1]
     if status != "ok":
+        if state.get("mask_kind", "bool") != "bool":
+            # masks that are not boolean ndarrays are outside the documented contract of the constructor: refusing the
+            # call is acceptable, a silently wrong result is not (every returned result is still judged below)
+            ctx.count("non-bool-mask-refused:" + method)
+            return ok, None
         ctx.fail(site, "raises", "%s raised %s where the property demands a result" % (method, result),
                  dict(rp, expected=exp))
         return False, None
@@ -359,9 +420,11 @@ def op_line(state, op):
         return table[l]
     g = graph_tokens(state, intern)
     k = op[0]
-    if k in ("with", "with_str", "without", "without_str"):
-        req = [op[1]] if k.endswith("_str") else list(op[1])
-        toks = [k.split("_")[0]] + g + [str(len(req))] + [intern(l) for l in req]
+    if k in ("with_str", "without_str"):
+        toks = [k.replace("_", "")] + g + [intern(op[1])]
+    elif k in ("with", "without"):
+        req = list(op[1])
+        toks = [k] + g + [str(len(req))] + [intern(l) for l in req]
     elif k == "get":
         toks = ["get"] + g + [intern(op[1])]
     elif k == "add":
@@ -406,12 +469,16 @@ def compare_op(ctx, rec, reply):
     state, op, impl, table = rec["state"], rec["op"], rec["impl"], rec["table"]
     m = parse_model(reply, table)
     rp = {"kind": "op", "state": state, "op": op, "python": snippet(state, op), "model": reply[:300]}
+    if impl[0] == "err" and state.get("mask_kind", "bool") != "bool":
+        return   # which exception masks outside the documented contract meet is not modelled (the oracle judged the case)
     if impl[0] == "err":
         if m[0] != "err":
             ctx.mismatch(op[0], "implementation raises (%s), the model returns %s" % (impl[1], reply[:120]), rp)
-        elif m[1] == "empty" or (op[0] == "remove" and len(state["labels"]) == 1):
-            pass   # which exception an empty selection / an emptied label dict meets is not modelled
-        elif m[1] != impl[1]:
+        elif op[0] == "remove" and len(state["labels"]) == 1:
+            pass   # which exception an emptied label dict meets (numpy's, from `nonzero` on a 0-d array) is not modelled
+        elif {"empty": "value"}.get(m[1], m[1]) != impl[1]:
+            # the model's `empty` is the graph constructor's ValueError for zero vertices; `index` the IndexError an
+            # empty request (without_labels of every label) meets in from_mask
             ctx.mismatch(op[0], "implementation raises %s, the model %s" % (impl[1], m[1]), rp)
         return
     if m[0] == "err":
@@ -451,10 +518,20 @@ def gen_state(rng):
     names = rng.sample(NAMES, k)
     p = rng.choice([0.15, 0.35, 0.6])
     masks = [[1 if rng.random() < p else 0 for _ in range(n)] for _ in range(k)]
+    dup = rng.sample(range(k), 2) if k >= 2 and rng.random() < 0.15 else None
     for i in range(n):
         if not any(m[i] for m in masks):
-            masks[rng.randrange(k)][i] = 1
-    return {"points": pts, "edges": edges, "labels": [[l, m] for l, m in zip(names, masks)]}
+            masks[rng.choice([j for j in range(k) if not dup or j != dup[1]])][i] = 1
+    if dup:                                      # two labels with identical masks
+        masks[dup[1]] = list(masks[dup[0]])
+        for i in range(n):
+            if not any(m[i] for m in masks):
+                masks[dup[0]][i] = masks[dup[1]][i] = 1
+    st = {"points": pts, "edges": edges, "labels": [[l, m] for l, m in zip(names, masks)]}
+    q = rng.random()
+    if q < 0.15:                                 # masks that are not boolean ndarrays (outside the documented contract)
+        st["mask_kind"] = "int" if q < 0.08 else ("uint8" if q < 0.12 else "list")
+    return st
 
 
 def gen_op(rng, state):
@@ -466,7 +543,7 @@ def gen_op(rng, state):
         sub = [l for l in names if rng.random() < 0.55]
         q = rng.random()
         if q < 0.10 and names:
-            return ["with_str", rng.choice(names)]
+            return ["with_str", rng.choice(names) if rng.random() < 0.85 else rng.choice(other)]
         if q < 0.28:
             rng.shuffle(sub)
         elif q < 0.34 and sub:
@@ -476,10 +553,20 @@ def gen_op(rng, state):
         return ["with", sub]
     if r < 0.54:
         if rng.random() < 0.10:
-            return ["without_str", rng.choice(names)]
+            return ["without_str", rng.choice(names) if rng.random() < 0.85 else rng.choice(other)]
         sub = [l for l in names if rng.random() < 0.4]
-        if rng.random() < 0.2:
+        q = rng.random()
+        if q < 0.2:
             rng.shuffle(sub)
+        elif q < 0.28:                           # names the group does not have are ignored
+            sub.insert(rng.randrange(len(sub) + 1), rng.choice(other))
+        elif q < 0.36:                           # every label (in any order, possibly with repetitions): must be refused
+            sub = list(names)
+            rng.shuffle(sub)
+            if rng.random() < 0.3:
+                sub.append(rng.choice(names))
+        elif q < 0.40 and sub:
+            sub.append(rng.choice(sub))
         return ["without", sub]
     if r < 0.66:
         return ["get", rng.choice(names) if rng.random() < 0.93 else rng.choice(other)]
@@ -532,7 +619,8 @@ def explore_sequence(ctx, rng, lines, recs, n_ops, with_model=True):
             return
         if status == "ok" and op[0] != "get":
             g = result
-            state = {"points": impl[1]["points"], "edges": impl[1]["edges"], "labels": impl[1]["labels"]}
+            state = dict({"points": impl[1]["points"], "edges": impl[1]["edges"], "labels": impl[1]["labels"]},
+                         **({"mask_kind": state["mask_kind"]} if "mask_kind" in state else {}))
 
 
 def explore_all_subsets(ctx, rng, lines, recs):
@@ -563,6 +651,145 @@ def explore_all_subsets(ctx, rng, lines, recs):
             return
 
 
+# ------------------------------------------------------------------------------------- constructors
+
+def constructor_case(ctx, rng, lines, recs, with_model=True):
+    """the public constructors on recipes that may be malformed: a group with an unlabelled point must never come
+    into existence (constructor, init_from_indices_mapping, init_with_all_label)"""
+    np = np_()
+    from collections import OrderedDict
+    from menpo.shape import LabelledPointUndirectedGraph as L
+    st = gen_state(rng)
+    st.pop("mask_kind", None)
+    n = len(st["points"])
+    pts = np.array(st["points"], dtype=float)
+    if len(st["edges"]) == 2:                      # a (2, 2) edge array is read as an adjacency matrix: not this property
+        st["edges"] = st["edges"][:1]
+    edges = np.array(st["edges"], dtype=int).reshape(-1, 2)
+    which = rng.choice(["masks", "masks", "indices", "indices", "all"])
+    table = {}
+
+    def intern(l):
+        if l not in table:
+            table[l] = "s%d" % len(table)
+        return table[l]
+    etoks = [str(len(st["edges"]))] + [str(x) for e in st["edges"] for x in e]
+    if which == "masks":
+        defect = rng.choice(["none", "none", "uncovered", "uncovered", "short", "long", "empty"])
+        labels = [[l, list(b)] for l, b in st["labels"]]
+        if defect == "uncovered":
+            for i in rng.sample(range(n), rng.randint(1, max(1, n // 2))):
+                for _, b in labels:
+                    b[i] = 0
+        elif defect == "short" and n >= 2:
+            labels[rng.randrange(len(labels))][1].pop()
+        elif defect == "long":
+            labels[rng.randrange(len(labels))][1].append(rng.randrange(2))
+        elif defect == "empty":
+            labels = []
+        valid = bool(labels) and all(len(b) == n for _, b in labels) and covered(labels, n)
+        rp = {"kind": "ctor", "how": "masks", "points": st["points"], "edges": st["edges"], "labels": labels,
+              "python": "import numpy as np; from collections import OrderedDict\n"
+                        "from menpo.shape import LabelledPointUndirectedGraph as L\n"
+                        "g = L.init_from_edges(np.array(%r, dtype=float), np.array(%r, dtype=int).reshape(-1, 2), "
+                        "OrderedDict((l, np.array(b, dtype=bool)) for l, b in %r))\nprint(g._labels_to_masks)"
+                        % (st["points"], st["edges"], labels)}
+        try:
+            g = L.init_from_edges(pts, edges, OrderedDict((l, np.array(b, dtype=bool)) for l, b in labels))
+            status, res = "ok", observe(g)
+        except Exception as e:  # noqa
+            status, res = "err", err_kind(e)
+        want = {"points": st["points"], "edges": [list(e) for e in sorted(map(tuple, st["edges"]))], "labels": labels}
+        toks = ["construct", str(n)] + etoks + [str(len(labels))]
+        for l, b in labels:
+            toks += [intern(l), "".join("1" if x else "0" for x in b) or "-"]
+        ctx.count("constructor:masks-" + defect)
+    elif which == "indices":
+        defect = rng.choice(["none", "none", "negative", "out-of-range", "uncovered", "repeated"])
+        mapping = []
+        for l, b in st["labels"]:
+            ix = [i for i in range(n) if b[i]]
+            if defect in ("negative", "repeated") or rng.random() < 0.3:
+                ix = [i - n if rng.random() < 0.4 else i for i in ix]
+            if defect == "repeated" and ix:
+                ix = ix + [rng.choice(ix)]
+            rng.shuffle(ix)
+            mapping.append([l, ix])
+        if defect == "out-of-range":
+            mapping[rng.randrange(len(mapping))][1].append(rng.choice([n, n + 2, -n - 1]))
+        if defect == "uncovered":
+            i = rng.randrange(n)
+            mapping = [[l, [j for j in ix if j % n != i]] for l, ix in mapping]
+        in_range = all(-n <= j < n for _, ix in mapping for j in ix)
+        masks = [[l, [1 if any(j % n == i for j in ix) else 0 for i in range(n)]] for l, ix in mapping] if in_range else None
+        valid = in_range and covered(masks, n)
+        rp = {"kind": "ctor", "how": "indices", "points": st["points"], "edges": st["edges"], "mapping": mapping,
+              "python": "import numpy as np; from collections import OrderedDict\n"
+                        "from menpo.shape import LabelledPointUndirectedGraph as L\n"
+                        "g = L.init_from_indices_mapping(np.array(%r, dtype=float), np.array(%r, dtype=int).reshape(-1, 2), "
+                        "OrderedDict((l, np.array(ix, dtype=int)) for l, ix in %r))\nprint(g._labels_to_masks)"
+                        % (st["points"], st["edges"], mapping)}
+        try:
+            as_array = rng.random() < 0.5
+            g = L.init_from_indices_mapping(pts, edges, OrderedDict(
+                (l, np.array(ix, dtype=int) if as_array else list(ix)) for l, ix in mapping))
+            status, res = "ok", observe(g)
+        except Exception as e:  # noqa
+            status, res = "err", err_kind(e)
+        want = {"points": st["points"], "edges": [list(e) for e in sorted(map(tuple, st["edges"]))], "labels": masks}
+        toks = ["fromidx", str(n)] + etoks + [str(len(mapping))]
+        for l, ix in mapping:
+            toks += [intern(l), str(len(ix))] + [str(j) for j in ix]
+        ctx.count("constructor:indices-" + defect)
+    else:
+        valid = True
+        rp = {"kind": "ctor", "how": "all", "points": st["points"], "edges": st["edges"]}
+        from menpo.shape.graph import _convert_edges_to_symmetric_adjacency_matrix as conv
+        try:
+            g = L.init_with_all_label(pts, conv(edges, n))
+            status, res = "ok", observe(g)
+        except Exception as e:  # noqa
+            status, res = "err", err_kind(e)
+        want = {"points": st["points"], "edges": [list(e) for e in sorted(map(tuple, st["edges"]))],
+                "labels": [["all", [1] * n]]}
+        toks = ["allLabel", str(n)] + etoks
+        ctx.count("constructor:all")
+    site = "C15/constructor"
+    ctx.case(("ctor", json.dumps(rp, sort_keys=True)), nontrivial=n >= 2)
+    if status == "ok":
+        if not covered(res["labels"], len(res["points"])) or any(len(b) != len(res["points"]) for _, b in res["labels"]):
+            ctx.fail(site + ".cover", "unlabelled-points-accepted",
+                     "the constructor (%s) built a group in which points %r carry no label"
+                     % (rp["how"], [i for i in range(len(res["points"]))
+                                    if not any(len(b) > i and b[i] for _, b in res["labels"])]), dict(rp, observed=res))
+            return
+        if valid and (res["points"] != want["points"] or res["edges"] != want["edges"] or res["labels"] != want["labels"]):
+            ctx.fail(site, "wrong-state", "the constructed group differs from its arguments (%s)" % rp["how"],
+                     dict(rp, observed=res, expected=want))
+            return
+    elif valid:
+        ctx.fail(site, "raises", "the constructor (%s) refused a covered labelled graph: %s" % (rp["how"], res), rp)
+        return
+    if with_model:
+        cid = "c%d" % len(recs)
+        recs[cid] = {"ctor": rp, "impl": (status, res), "table": table, "state": st}
+        lines.append(cid + " " + " ".join(toks))
+
+
+def compare_ctor(ctx, rec, reply):
+    m = parse_model(reply, rec["table"])
+    impl, rp = rec["impl"], dict(rec["ctor"], model=reply[:300])
+    if impl[0] == "err" or m[0] == "err":
+        if impl[0] != m[0] or (impl[0] == "err" and impl[1] != m[1]):
+            ctx.mismatch("constructor", "implementation %s %s, model %s" % (impl[0], impl[1] if impl[0] == "err" else "",
+                                                                           reply[:60]), rp)
+        return
+    obs = impl[1]
+    if m[1]["ids"] != list(range(len(obs["points"]))) or obs["edges"] != m[1]["edges"] or obs["labels"] != m[1].get("labels"):
+        ctx.mismatch("constructor", "constructed groups differ: implementation %r, model %r"
+                     % (obs["labels"], reply[:200]), rp)
+
+
 # ------------------------------------------------------------------------------------- labellers
 
 def labeller_input(rng, n, kind):
@@ -571,10 +798,37 @@ def labeller_input(rng, n, kind):
     d = rng.choice([2, 3])
     pts = np.array(gen_points(rng, n, d), dtype=float).reshape(n, d)
     if kind == "ndarray":
+        v = rng.random()
+        if v < 0.55:
+            return pts.copy(), pts
+        if v < 0.65:                               # Fortran-ordered
+            return np.asfortranarray(pts), pts
+        if v < 0.75:                               # a non-contiguous view (every second row of a larger buffer)
+            big = np.zeros((2 * n, d))
+            big[::2] = pts
+            return big[::2], pts
+        if v < 0.85:                               # read-only buffer
+            a = pts.copy()
+            a.setflags(write=False)
+            return a, pts
+        # other dtypes: the coordinates are small dyadic rationals, exactly representable in float32; integers by scaling
+        if v < 0.93:
+            return pts.astype(np.float32), pts.astype(np.float32).astype(float)
+        ipts = np.round(pts * 4).astype(np.int64)
+        if len(set(map(tuple, ipts.tolist()))) == n:
+            return ipts, ipts.astype(float)
         return pts.copy(), pts
     from menpo.shape import PointCloud, LabelledPointUndirectedGraph
     if kind == "pointcloud":
-        return PointCloud(pts), pts
+        v = rng.random()
+        if v < 0.7 or n < 3:
+            return PointCloud(pts), pts
+        if v < 0.85:                               # subclasses of PointCloud carrying their own connectivity
+            from menpo.shape import TriMesh
+            tl = np.array([[i, (i + 1) % n, (i + 2) % n] for i in range(0, n - 2, 2)], dtype=int)
+            return TriMesh(pts, trilist=tl), pts
+        from menpo.shape import PointUndirectedGraph
+        return PointUndirectedGraph.init_from_edges(pts, np.array([[i, i + 1] for i in range(n - 1)], dtype=int)), pts
     from collections import OrderedDict
     edges = np.array([[i, (i + 1) % n] for i in range(n) if rng.random() < 0.5 and n > 1], dtype=int).reshape(-1, 2)
     m1 = np.array([rng.random() < 0.5 for _ in range(n)], dtype=bool)
@@ -663,7 +917,7 @@ def labeller_oracle(ctx, name, f, rng, kind, n_exp, bbox=False):
             tx.points[...] = tp
         try:
             tout, tmap = f(tx, return_mapping=True)
-            same = np.array_equal(np.asarray(tout.points), T(opts)) and \
+            same = np.array_equal(np.asarray(tout.points), T(opts.astype(float))) and \
                 extract_c15.labels_of(tout, tmap) == labels and out_connectivity(tout) == out_connectivity(out) and \
                 type(tout) is type(out)
         except Exception:  # noqa
@@ -671,8 +925,44 @@ def labeller_oracle(ctx, name, f, rng, kind, n_exp, bbox=False):
         ctx.check(same, site + ".commute", "does-not-commute-with-" + tname,
                   "%s: labelling the transformed input differs from transforming the labelled output (%s map)"
                   % (name, tname), dict(rp, transform=tname, A=A.tolist(), t=t.tolist()))
+    # the same clause through menpo's own transform objects: T.apply(labeller(x)) against labeller(T.apply(x))
+    try:
+        from menpo.transform import Affine, Translation, NonUniformScale
+        dd = pts.shape[1]
+        hm = np.eye(dd + 1)
+        hm[:dd, :dd] = A
+        hm[:dd, dd] = t
+        menpo_ts = [("menpo-affine", Affine(hm)), ("menpo-translation", Translation(t)),
+                    ("menpo-scale", NonUniformScale([rng.choice([0.5, 2.0, 4.0, -1.0]) for _ in range(dd)]))]
+    except Exception:  # noqa: building the transform is not this property's business
+        menpo_ts = []
+    digest_out = digest(out)
+    for tname, T in menpo_ts:
+        try:
+            lhs = T.apply(out)
+            rhs, rmap = f(T.apply(x), return_mapping=True)
+            scale = float(np.max(np.abs(np.asarray(lhs.points)))) if lhs.n_points else 1.0
+            pa, pb = np.asarray(lhs.points, dtype=float), np.asarray(rhs.points, dtype=float)
+            same = pa.shape == pb.shape and bool(np.all(np.abs(pa - pb) <= 1e-9 * (1.0 + scale))) and \
+                extract_c15.labels_of(lhs, mapping) == extract_c15.labels_of(rhs, rmap) and \
+                out_connectivity(lhs) == out_connectivity(rhs) and type(lhs) is type(rhs)
+        except Exception:  # noqa
+            same = False
+        ctx.check(same, site + ".commute", "does-not-commute-with-" + tname,
+                  "%s: labelling the transformed input differs from transforming the labelled output (%s)"
+                  % (name, tname), dict(rp, transform=tname, A=A.tolist(), t=t.tolist()))
+    ctx.check(digest(out) == digest_out and (digest(x) if kind != "ndarray" else repr(x.tobytes())) == before,
+              site + ".input", "input-mutated", "%s: transforming the result changed the result or the input" % name, rp)
+    base = x if kind == "ndarray" else x.points
+    if np.shares_memory(np.asarray(out.points), base):
+        # not a clause of the property text (the call itself leaves the input untouched): reported as a side finding
+        ctx.notes.setdefault("side_findings_aliasing", [])
+        msg = "%s returns a %s whose points share the buffer of its input" % (name, type(out).__name__)
+        if msg not in ctx.notes["side_findings_aliasing"]:
+            ctx.notes["side_findings_aliasing"].append(msg)
     return {"ind": ind, "labels": [[l.replace(" ", "~"), ix] for l, ix in labels], "edges": out_connectivity(out),
-            "cls": type(out).__name__}
+            "cls": extract_c15.cls_of(out),
+            "mapping": [[l.replace(" ", "~"), ix] for l, ix in extract_c15.labels_of(None, mapping)]}
 
 
 def labeller_wrong_size(ctx, name, f, rng, kind, n_exp, k):
@@ -695,11 +985,21 @@ def labeller_wrong_size(ctx, name, f, rng, kind, n_exp, k):
 
 
 def model_labeller(reply):
-    m = parse_model(reply)
+    """reply of the driver's `call`: `<cls> <nmap> (name k idx…)… | ok <graph>`  or  `err <kind>`"""
+    if reply.startswith("err"):
+        return parse_model(reply)
+    head, _, graph = reply.partition(" | ")
+    h = head.split()
+    cls, nmap, i, mapping = h[0], int(h[1]), 2, []
+    for _ in range(nmap):
+        k = int(h[i + 1])
+        mapping.append([h[i], sorted(int(x) for x in h[i + 2:i + 2 + k])])
+        i += 2 + k
+    m = parse_model(graph)
     if m[0] == "err":
         return m
     labels = [[l, [j for j, b in enumerate(bits) if b]] for l, bits in m[1].get("labels", [])]
-    return "ok", {"ind": m[1]["ids"], "edges": m[1]["edges"], "labels": labels}
+    return "ok", {"ind": m[1]["ids"], "edges": m[1]["edges"], "labels": labels, "cls": cls, "mapping": mapping}
 
 
 def explore_labellers(ctx, rng, lines, recs, rounds, tables, with_model=True, only=None):
@@ -727,7 +1027,7 @@ def explore_labellers(ctx, rng, lines, recs, rounds, tables, with_model=True, on
             if with_model and obs is not None:
                 cid = "l%d" % len(recs)
                 recs[cid] = {"lab": name, "n": n, "impl": ("ok", obs), "input_kind": kind}
-                lines.append("%s lab %s %d" % (cid, name, n))
+                lines.append("%s call %s %s %d 1" % (cid, name, kind, n))
             for k in sorted(set([n - 1, n + 1, 2 * n, n // 2, 0, rng.randint(1, 2 * n + 3)]) - {n}):
                 if k < 0:
                     continue
@@ -737,7 +1037,7 @@ def explore_labellers(ctx, rng, lines, recs, rounds, tables, with_model=True, on
                 if with_model and r is not None:
                     cid = "l%d" % len(recs)
                     recs[cid] = {"lab": name, "n": k, "impl": ("err", r[4:]), "input_kind": kind}
-                    lines.append("%s lab %s %d" % (cid, name, k))
+                    lines.append("%s call %s %s %d %d" % (cid, name, kind if k > 0 else "ndarray", k, rng.randrange(2)))
 
 
 def compare_labeller(ctx, rec, reply):
@@ -751,11 +1051,207 @@ def compare_labeller(ctx, rec, reply):
                             m[1] if m[0] == "err" else ""), rp)
         return
     o = impl[1]
-    for key in ("ind", "labels", "edges"):
+    for key in ("cls", "ind", "labels", "edges", "mapping"):
         if o[key] != m[1][key]:
             ctx.mismatch("lab", "%s: %s on a random %s differ from the table probed on the index cloud: %r vs %r"
                          % (rec["lab"], key, rec["input_kind"], str(o[key])[:150], str(m[1][key])[:150]), rp)
             return
+
+
+# ------------------------------------------------------------------------------------- labeller() on a manager
+
+def lab_err_kind(e):
+    from menpo.landmark import LabellingError
+    return "labelling" if isinstance(e, LabellingError) else err_kind(e)
+
+
+def manager_snapshot(lms):
+    return [(k, id(lms[k]), digest(lms[k])) for k in lms.group_labels]
+
+
+def relabel_case(ctx, rng, fs, nexp, lines, recs, with_model=True, only=None):
+    """one landmarkable with a few landmark groups, one to three `labeller()` calls on it (its history), the oracle on
+    every call, one model line (`relabelMany`) for the whole history"""
+    np = np_()
+    from menpo.shape import PointCloud
+    from menpo.landmark import labeller
+    names = [n for n in fs if n not in extract_c15.BBOX and nexp.get(n, 0) > 0 and (not only or n in only)]
+    if not names:
+        return
+    name0 = rng.choice(names)
+    n0 = nexp[name0]
+    same = [n for n in fs if n not in extract_c15.BBOX and nexp.get(n, 0) == n0]
+    chain = [name0] + [rng.choice(same) for _ in range(rng.choice([0, 0, 1, 2]))]
+    d = rng.choice([2, 2, 3])
+    scenario = rng.choice(["plain", "plain", "plain", "existing", "samekey", "none-single", "none-many", "missing",
+                           "wrong-size"])
+    gl0 = fs[name0].group_label
+    src = gl0 if scenario == "samekey" else "PTS"
+    size = n0 if scenario != "wrong-size" else rng.choice([n0 - 1, n0 + 1, 1, 2 * n0])
+    groups = [(src, size)]
+    if scenario == "existing":
+        groups.insert(rng.randrange(2), (gl0, rng.randint(1, 5)))
+    if scenario != "none-single" and (rng.random() < 0.7 or scenario == "none-many"):
+        groups.insert(rng.randrange(len(groups) + 1), ("other", rng.randint(1, 6)))
+    arg = None if scenario.startswith("none") else ("zz" if scenario == "missing" else src)
+    total = sum(k for _, k in groups)
+    allpts = np.array(gen_points(rng, total, d), dtype=float).reshape(total, d)
+    if d == 2 and rng.random() < 0.3:
+        from menpo.image import Image
+        holder = Image.init_blank((4, 5))
+    else:
+        holder = PointCloud(np.zeros((2, d)))
+    where, off = {}, 0
+    for gi, (key, k) in enumerate(groups):
+        chunk = allpts[off:off + k]
+        holder.landmarks[key] = PointCloud(chunk)
+        for j, pnt in enumerate(chunk.tolist()):
+            where[tuple(pnt)] = 1000 * gi + j
+        off += k
+    rp = {"kind": "relabel", "groups": [[key, k] for key, k in groups], "dim": d, "points": allpts.tolist(),
+          "group": arg, "labellers": chain, "holder": type(holder).__name__,
+          "python": "import numpy as np, menpo.landmark as ml\nfrom menpo.shape import PointCloud\n"
+                    "h = PointCloud(np.zeros((2, %d))); P = np.array(%r); o = 0\n"
+                    "for k, n in %r:\n    h.landmarks[k] = PointCloud(P[o:o + n]); o += n\n"
+                    "for f in %r:\n    ml.labeller(h, %r, getattr(ml, f))\nprint(h.landmarks)"
+                    % (d, allpts.tolist(), [[key, k] for key, k in groups], chain, arg)}
+    impl_err = None
+    for step, name in enumerate(chain):
+        f = fs[name]
+        site = "C15/labeller()/" + name
+        lms = holder.landmarks
+        snap = manager_snapshot(lms)
+        keys = [k for k, _, _ in snap]
+        try:
+            source = lms[arg]
+            src_key = [k for k in keys if lms[k] is source][0]
+        except Exception:  # noqa: the group cannot be resolved: the call must raise and change nothing
+            source, src_key = None, None
+        direct = None
+        if source is not None:
+            try:
+                direct = f(source)
+            except Exception:  # noqa
+                direct = None
+        try:
+            ret = labeller(holder, arg, f)
+            status = "ok"
+        except Exception as e:  # noqa
+            status, ret = "err", lab_err_kind(e)
+        after = manager_snapshot(holder.landmarks)
+        ctx.count("labeller():" + scenario)
+        ctx.count("labeller()-outcome:" + (status if status == "ok" else "err-" + ret))
+        if status == "err":
+            if not ctx.check(after == snap, site + ".failed-call", "manager-changed-by-failing-call",
+                             "labeller() raised (%s) and left the landmark manager changed" % ret, dict(rp, step=step)):
+                return
+            if direct is not None:
+                ctx.fail(site, "raises", "labeller() raised %s although the labeller accepts the source group" % ret,
+                         dict(rp, step=step))
+                return
+            impl_err = (ret, step)
+            break
+        if direct is None:
+            ctx.fail(site + ".size", "wrong-size-accepted" if source is not None else "unresolvable-group-accepted",
+                     "labeller() succeeded although %s" % ("the labeller refuses the source group" if source is not None
+                                                          else "the group cannot be resolved"), dict(rp, step=step))
+            return
+        gl = f.group_label
+        okc = ctx.check(ret is holder, site, "returns-other-object", "labeller() did not return the landmarkable", rp)
+        a = dict((k, (i, dg)) for k, i, dg in after)
+        for k, i, dg in snap:
+            if k == gl:
+                continue
+            okc &= ctx.check(k in a and a[k][1] == dg, site + (".source" if k == src_key else ".others"),
+                             "group-changed", "labeller(…, %r, %s) changed the %s group %r"
+                             % (arg, name, "source" if k == src_key else "unrelated", k), dict(rp, step=step))
+        want_keys = keys if gl in keys else keys + [gl]
+        okc &= ctx.check([k for k, _, _ in after] == want_keys, site + ".keys", "wrong-keys",
+                         "labeller() left the groups %r, expected %r" % ([k for k, _, _ in after], want_keys),
+                         dict(rp, step=step))
+        if not okc:
+            return
+        new = holder.landmarks[gl]
+        if not ctx.check(digest(new) == digest(direct) and type(new) is type(direct), site + ".new-group",
+                         "stored-group-differs-from-direct-call",
+                         "the group labeller() stored under %r differs from %s(source group)" % (gl, name),
+                         dict(rp, step=step)):
+            return
+        if source is not None and src_key != gl:
+            shared = np.shares_memory(np.asarray(new.points), np.asarray(source.points))
+            if not ctx.check(not shared, site + ".alias", "new-group-shares-source-buffer",
+                             "the group stored under %r shares its points buffer with the source group" % gl,
+                             dict(rp, step=step)):
+                return
+    ctx.case(("relabel", json.dumps(rp["groups"]), d, arg, tuple(chain), allpts.tobytes().hex()[:64]), nontrivial=True,
+             sample={"groups": rp["groups"], "group": arg, "labellers": chain,
+                     "outcome": "err %s at %d" % impl_err if impl_err else holder.landmarks.group_labels}
+             if scenario in ("existing", "samekey") else None)
+    if not with_model:
+        return
+    if impl_err:
+        impl = ("err", impl_err[0])
+    else:
+        obs = []
+        for k in holder.landmarks.group_labels:
+            o = holder.landmarks[k]
+            ids = [where.get(tuple(pnt), -1) for pnt in np.asarray(o.points).tolist()]
+            labels = [[str(l).replace(" ", "~"), [int(x) for x in np.asarray(m).tolist()]]
+                      for l, m in o._labels_to_masks.items()] if hasattr(o, "_labels_to_masks") else []
+            obs.append({"key": k, "cls": extract_c15.cls_of(o), "dim": int(o.n_dims), "ids": ids,
+                        "edges": out_connectivity(o), "labels": labels})
+        impl = ("ok", obs)
+    cid = "r%d" % len(recs)
+    recs[cid] = {"relabel": rp, "impl": impl}
+    lines.append("%s relabel %d %s %s %d %s" % (cid, len(groups), " ".join("%s %d %d" % (key, d, k) for key, k in groups),
+                                               "-" if arg is None else arg, len(chain), " ".join(chain)))
+
+
+def parse_manager(reply):
+    t = reply.split()
+    if t[0] == "err":
+        return "err", t[1]
+    if t[0] != "okm":
+        raise common.Infra("driver reply %r" % reply[:200])
+    out, i = [], 2
+    for _ in range(int(t[1])):
+        key, cls, dim = t[i], t[i + 1], int(t[i + 2])
+        i += 3
+        n = int(t[i]); i += 1
+        ids = [int(x) for x in t[i:i + n]]; i += n
+        ne = int(t[i]); i += 1
+        es = sorted(set((min(int(t[i + 2 * k]), int(t[i + 2 * k + 1])), max(int(t[i + 2 * k]), int(t[i + 2 * k + 1])))
+                        for k in range(ne)))
+        i += 2 * ne
+        nl = int(t[i]); i += 1
+        labels = []
+        for k in range(nl):
+            labels.append([t[i + 2 * k], [int(c) for c in t[i + 2 * k + 1]]])
+        i += 2 * nl
+        out.append({"key": key, "cls": cls, "dim": dim, "ids": ids, "edges": [list(e) for e in es], "labels": labels})
+    return "ok", out
+
+
+def compare_relabel(ctx, rec, reply):
+    m = parse_manager(reply)
+    impl = rec["impl"]
+    rp = dict(rec["relabel"], model=reply[:300])
+    if impl[0] == "err" or m[0] == "err":
+        if (impl[0], impl[1] if impl[0] == "err" else None) != (m[0], m[1] if m[0] == "err" else None):
+            ctx.mismatch("relabel", "labeller() history: implementation %s, model %s"
+                         % (impl[0] + (" " + impl[1] if impl[0] == "err" else ""), reply[:60]), rp)
+        return
+    if impl[1] != m[1]:
+        bad = [(a["key"], b["key"]) for a, b in zip(impl[1], m[1]) if a != b][:2]
+        ctx.mismatch("relabel", "labeller() history: managers differ (groups %r; implementation keys %r, model keys %r)"
+                     % (bad, [a["key"] for a in impl[1]], [b["key"] for b in m[1]]), rp)
+
+
+def explore_relabel(ctx, rng, lines, recs, n_cases, tables, with_model=True, only=None):
+    fs = extract_c15.live_labellers()
+    nexp = dict((n, t["n"]) for n, _, t in tables)
+    for _ in range(n_cases):
+        relabel_case(ctx, rng, fs, nexp, lines, recs, with_model=with_model, only=only)
 
 
 # ------------------------------------------------------------------------------------- hash seeds
@@ -781,11 +1277,38 @@ def battery(rng, n_cases):
     return cases
 
 
+def labeller_battery(rng, tables):
+    """every labeller once, on an index-independent random cloud, directly and through `labeller()`: the labels of the
+    result, their order and the keys of the manager must not depend on the hash seed either"""
+    cases = []
+    for name, _, t in tables:
+        if t["n"] > 0:
+            cases.append({"lab": name, "points": gen_points(rng, t["n"], 2)})
+    return cases
+
+
 def run_battery(cases):
     """executed in the parent and in every child: JSON-able outcomes"""
     out = []
+    fs = None
     for c in cases:
         try:
+            if "lab" in c:
+                np = np_()
+                from menpo.shape import PointCloud
+                from menpo.landmark import labeller
+                fs = fs or extract_c15.live_labellers()
+                f = fs[c["lab"]]
+                r, mp = f(np.array(c["points"], dtype=float), return_mapping=True)
+                holder = PointCloud(np.zeros((1, 2)))
+                holder.landmarks["zz"] = PointCloud(np.array(c["points"], dtype=float))
+                holder.landmarks["aa"] = PointCloud(np.zeros((2, 2)))
+                labeller(holder, "zz", f)
+                o = observe(r)
+                o["mapping_keys"] = [str(k) for k in mp.keys()]
+                o["manager_keys"] = list(holder.landmarks.group_labels)
+                out.append(["ok", o])
+                continue
             g = build(c["state"])
             status, r = apply_op(g, c["op"])
             out.append([status, observe(r) if status == "ok" else r])
@@ -821,8 +1344,8 @@ def spawn(cases, hashseeds):
     return out
 
 
-def hash_seed_check(ctx, rng, n_cases, n_procs):
-    cases = battery(rng, n_cases)
+def hash_seed_check(ctx, rng, n_cases, n_procs, tables=None):
+    cases = battery(rng, n_cases) + (labeller_battery(rng, tables) if tables else [])
     seeds = [1 + (7919 * (k + 1) + 31 * ctx.seed) % 4294967290 for k in range(n_procs)]
     res = spawn(cases, seeds)
     mine = json.loads(json.dumps(run_battery(cases)))
@@ -831,10 +1354,15 @@ def hash_seed_check(ctx, rng, n_cases, n_procs):
     for i, c in enumerate(cases):
         outs = [("this-process", mine[i])] + [(str(s), res[s][i]) for s in seeds]
         ctx.case(("hash", json.dumps(c, sort_keys=True)), nontrivial=True)
-        ctx.count("hash-battery:" + c["op"][0])
+        ctx.count("hash-battery:" + (c["op"][0] if "op" in c else "labeller"))
         first = outs[0][1]
         diff = [(s, o) for s, o in outs[1:] if o != first]
-        if diff:
+        if diff and "lab" in c:
+            ctx.fail("C15/hash-seed/labeller/" + c["lab"], "result-differs-between-hash-seeds",
+                     "%s: the result of the same call differs between interpreter processes: PYTHONHASHSEED=%s gives "
+                     "%r, this process gives %r" % (c["lab"], diff[0][0], str(diff[0][1])[:200], str(first)[:200]),
+                     {"kind": "lab", "labeller": c["lab"], "points": c["points"], "hash_seeds": [diff[0][0]]})
+        elif diff:
             what = "labels" if (first[0] == "ok" and diff[0][1][0] == "ok" and
                                 first[1].get("labels") != diff[0][1][1].get("labels")) else "result"
             method = {"with": "with_labels", "without": "without_labels", "add": "add_label",
@@ -853,11 +1381,21 @@ def hash_seed_check(ctx, rng, n_cases, n_procs):
 
 def generated(ctx):
     """regenerate the labeller tables from the live module; returns (tables, obligation names or [])"""
+    from . import scan_c15
     idx, bbox = extract_c15.tables()
-    files = extract_c15.lean_files(idx, bbox)
+    res = extract_c15.resolutions(idx)
+    sites = scan_c15.set_sites()
+    scan = scan_c15.labeller_scan()
+    guard = scan_c15.validate_guard()
+    files = extract_c15.lean_files(idx, bbox, res, sites, scan, guard)
+    ctx.notes["validate_input_guard"] = guard
     names = extract_c15.obligation_names(idx)
     ok = common.build_generated(ctx, files, extract_c15.TARGETS, len(names))
     ctx.count("labeller-tables:" + ("ok" if ok else "BROKEN"))
+    ctx.notes["resolution_rows"] = sum(len(r["rows"]) for r in res)
+    ctx.notes["set_sites"] = [list(x[:3]) + [x[3]] for x in sites]
+    ctx.notes["order_observing_sites"] = [list(x) for x in scan_c15.order_sites(sites)]
+    ctx.notes["labeller_functions_scanned"] = len(scan)
     ctx.notes["labellers_tabulated"] = len(idx)
     ctx.notes["labellers_bounding_box"] = [n for n, _ in bbox]
     odd = [(n, t["accepts"], t["other_errors"][:3]) for n, _, t in idx if len(t["accepts"]) != 1 or t["other_errors"]]
@@ -909,18 +1447,37 @@ def search(ctx):
             ctx.searched += 1
             if ctx.failures:
                 return True
+    order_broken = any("orderSites" in e for b in ctx.broken_obligations
+                       for e in b.get("errors", []) + [b.get("output_tail", "")])
+    if order_broken:
+        # a set whose iteration order is observed outside the whitelisted place: many more cases, more hash seeds
+        hash_seed_check(ctx, rng, ctx.n(400, 1200), ctx.n(6, 12), idx)
+        ctx.searched += ctx.n(400, 1200)
+        if ctx.failures:
+            return True
+    if any(rp.get("kind") == "relabel" for _, _, rp in ctx.mismatches):
+        for _, _, rp in ctx.mismatches:
+            if rp.get("kind") == "relabel":
+                suspects.update(rp.get("labellers", []))
     if suspects or ctx.broken_obligations:
         only = suspects or None
         explore_labellers(ctx, rng, [], {}, 12, idx, with_model=False, only=only)
         ctx.searched += 12 * (len(only) if only else len(idx))
         if ctx.failures:
             return True
+        explore_relabel(ctx, rng, [], {}, 600, idx, with_model=False, only=only)
+        ctx.searched += 600
+        if ctx.failures:
+            return True
     for k in range(ctx.n(1500, 6000)):
         explore_sequence(ctx, rng, [], {}, 5, with_model=False)
-        ctx.searched += 1
+        constructor_case(ctx, rng, [], {}, with_model=False)
+        ctx.searched += 2
         if ctx.failures:
             return True
     explore_labellers(ctx, rng, [], {}, 4, idx, with_model=False)
+    if not ctx.failures:
+        explore_relabel(ctx, rng, [], {}, 1500, idx, with_model=False)
     return bool(ctx.failures)
 
 
@@ -938,12 +1495,15 @@ def run(ctx):
                         "CPython set iteration order: parameter of the coded without_labels model (any permutation)"])
     rng = ctx.rng
     lines, recs = [], {}
-    for k in range(ctx.n(700, 20000)):
+    for k in range(ctx.n(1200, 20000)):
         explore_sequence(ctx, rng, lines, recs, rng.randint(2, 6))
-    for k in range(ctx.n(10, 150)):
+    for k in range(ctx.n(14, 150)):
         explore_all_subsets(ctx, rng, lines, recs)
+    for k in range(ctx.n(300, 6000)):
+        constructor_case(ctx, rng, lines, recs)
     explore_labellers(ctx, rng, lines, recs, ctx.n(4, 50), idx)
-    hash_seed_check(ctx, rng, ctx.n(40, 240), ctx.n(3, 8))
+    explore_relabel(ctx, rng, lines, recs, ctx.n(300, 4000), idx)
+    hash_seed_check(ctx, rng, ctx.n(40, 240), ctx.n(3, 8), idx)
     # a few whole sequences through `run` (the definition `run_invariant` is about)
     seqs = []
     for k in range(ctx.n(80, 800)):
@@ -952,6 +1512,10 @@ def run(ctx):
     for cid, rec in recs.items():
         if "lab" in rec:
             compare_labeller(ctx, rec, model[cid])
+        elif "relabel" in rec:
+            compare_relabel(ctx, rec, model[cid])
+        elif "ctor" in rec:
+            compare_ctor(ctx, rec, model[cid])
         else:
             compare_op(ctx, rec, model[cid])
     for rec in seqs:
@@ -963,6 +1527,8 @@ def run(ctx):
 def sequence_case(ctx, rng, k, lines):
     """a whole operation list executed on the real objects (stop at the first raise) and by the model's `run`"""
     state = gen_state(rng)
+    while "mask_kind" in state:          # the sequence model is about boolean masks (the documented contract)
+        state = gen_state(rng)
     ops, g, st, impl = [], build(state), state, None
     for i in range(rng.randint(2, 5)):
         op = gen_op(rng, st)
@@ -1054,6 +1620,16 @@ def replay(ctx, path):
     if kind == "lab":
         idx, _ = extract_c15.tables()
         explore_labellers(ctx, ctx.rng, [], {}, 6, idx, with_model=False, only={rp["labeller"]})
+        return ctx.finish(None)
+    if kind == "ctor":
+        print("constructor replay: the recorded snippet\n" + rp.get("python", ""))
+        for _ in range(2000):
+            constructor_case(ctx, ctx.rng, [], {}, with_model=False)
+        return ctx.finish(None)
+    if kind == "relabel":
+        idx, _ = extract_c15.tables()
+        print("labeller() replay: the recorded snippet\n" + rp.get("python", ""))
+        explore_relabel(ctx, ctx.rng, [], {}, 400, idx, with_model=False, only=set(rp.get("labellers", [])) or None)
         return ctx.finish(None)
     if kind == "seq":
         print("sequence replay: re-running the operations one by one")
